@@ -70,6 +70,14 @@ PROPS = {
         "rule": WORLD_RULE + "; each world becomes a request of 1-4 invocations against a server with 1-2 recording service methods", "trusted_base": VALIDATOR_TRUSTED,
         "assumptions": ["a model/implementation difference in receipt outcome or handler call log is itself a failing input: the model's run is proved to satisfy the property's iff"],
     },
+    "C20": {
+        "manifest": {"text": "Theorems on the model of carInbound.Accept + server.Handle + channel.Request: admits_spec (the negotiation admits a header iff it is empty or one of its comma separated media ranges, parameters and blanks aside, is the CAR type or */*), C20_415 / C20_406 / C20_400 / C20_200 (each status is answered exactly in its case), C20_nothing_runs (a 415/406/400 is decided before Execute is reached), C20_client (non-200 <=> error carrying the status); the pinned substring negotiation is kept with three machine-checked counterexamples. Correspondence: Server.Request on 7 content types x (18 media-range elements, all ordered pairs with two separators) x 7 body kinds (valid message, empty batch, empty, garbage, CAR whose root is not a message, CAR without roots, message with a missing invocation block) with a recording handler; the HTTP channel against a loopback server replying every status 200-599 with text and CAR bodies.", "design_ref": "5.20", "note": "trusted: Lean kernel; hand-written 30-line model of Accept/Handle/channel; net/http and the CAR/message decoders are outside the model (a body is classified by how it was built); header pairs are enumerated over a fixed element list, not all strings"},
+        "obligations": ob("UcantoModel.Props.C20", "Http.admits_spec", "Http.C20_415", "Http.C20_406", "Http.C20_400", "Http.C20_200", "Http.C20_nothing_runs", "Http.C20_client",
+                          "Http.C20_pinned_counterexample_1", "Http.C20_pinned_counterexample_2", "Http.C20_pinned_counterexample_3"),
+        "mismatch_is_violation": True,
+        "rule": "Content-Type in 7 values x Accept in {absent, 18 elements, all ordered pairs x 2 separators} x 7 body kinds; channel: every status 200..599 x {text, CAR} body. non-trivial: CAR content type with an Accept header present / non-200 status. distinct: hash of (op,args)",
+        "trusted_base": ["model Http.lean mirrors carInbound.Accept, server.Handle and channel.Request by hand"],
+    },
     "C16": {
         "manifest": {"text": "Lean theorems over all byte strings: resolveAbility/resolveResource/defaultDerives of the model equal the property's three grant relations (resolveAbility_spec, resolveResource_spec, defaultDerives_spec, plus no_partial_segment / only_three_forms); the model is tied to the Go functions by exhaustive enumeration of all string pairs over {a,b,A,/,*,:} up to total length 7 (quick) / 8 (thorough) plus random realistic strings, so any divergence of the code from the proved specification inside that space is a concrete failing pair.",
                      "design_ref": "5.16",
